@@ -144,6 +144,17 @@ def run(tier):
                   f"an in-gamut {pn} colour has an opsin mix of {float(worst) if worst is not None else None}: clamped, not invertible")
     except Unsupported as ex:
         ck.ob('C09/in-gamut-mixes', 'UNDECIDED', f"the opsin stage is not 'cube root of the clamped affine mix of the unclamped pixel': {ex}")
+    # block structure of the two long conversions themselves (the C11 rules: every sample written, chroma = kernel of
+    # a pixel of its own block, pointwise): needed for the subsampled clause and for 'every sample changes by at most ...'
+    from . import c11
+    for conv in ('Yuv->Xyb', 'Xyb->Yuv'):
+        for T in ('u8', 'u16'):
+            for (ssx, ssy) in ((0, 0), (1, 1), (1, 0)):
+                key = f"C09/structure/{conv}/{T}/ss{ssx}{ssy}"
+                try:
+                    c11.conversion_structure(ck, ctx, conv, T, ssx, ssy, key)
+                except Unsupported as ex:
+                    ck.ob(key, 'UNDECIDED', f"analysis lost: {ex}")
     ck.note('imported_stage_identities', ['C08 (decode/encode codes)', 'C10 (to_gamma o to_linear)', 'C06 (primaries there-and-back)', 'C05 (opsin inverse)', 'C11 (block structure for subsampled images)'])
     ck.note('not_decided', ['the numeric budget max(1, 0.015*(2^n-1)) codes'])
     ck.floor('triples', 20)
